@@ -358,6 +358,92 @@ def r6(ctx):
     ctx.floor(rule, n, "C11.R6.stores")
 
 
+def r7(ctx):
+    rule = "C11.R7"
+    ctx.rule(rule, "T8 save / restore of the cursors: BitBuffer::with_write_position_at, with_read_position_at and with_max_read save "
+                   "the cursor they move with mem::replace and, after the closure has run (on its only continuation), assign the "
+                   "saved value back to the same field; ScopedBitRead::with_read_position_at restores with set_pos(saved pos())")
+    P = ctx.program()
+    n = 0
+    for b in P.lib_bodies("asn1rs"):
+        if not (b.name.startswith("with_") and b.def_kind == "AssocFn" and "per/unaligned" in b.file and b.name != "with_capacity"):
+            continue
+        O = X.Origins(b, P)
+        fcalls = [cs for cs in b.calls() if (cs.trait or "").split("::")[-1] in ("Fn", "FnOnce", "FnMut")]
+        if not fcalls:
+            continue
+        n += 1
+        fc = fcalls[0]
+        repl = [cs for cs in b.calls() if cs.name == "replace" and b.dominates(cs.bb, fc.bb)]
+        detail = {"function": b.path}
+        if repl:
+            saved_field = F.rd(R.positional(O.call_args(repl[0])[0]))
+            restores = []
+            for bb, j, st in b.all_statements():
+                if st["k"] == "assign" and st["pl"]["p"] and fc.target is not None and (bb == fc.target or b.dominates(fc.target, bb)):
+                    fld = ".".join(p.get("n", "*") for p in st["pl"]["p"])
+                    restores.append((fld, F.rd(R.positional(O.rvalue(st["rv"], bb, j, 0)))))
+            detail.update(saved=saved_field, restores=restores)
+            want_field = "*." + saved_field.split(".", 1)[1] if "." in saved_field else saved_field
+            good = [r for r in restores if r[0] == want_field and r[1].startswith("mem::replace(" + saved_field)]
+            if not good:
+                ctx.fail(rule, b.name, "%s saves `%s` but does not assign the saved value back to it after the closure (restores: %s): the "
+                                       "cursor stays where the closure left it, or another cursor is overwritten" % (b.name, saved_field, restores),
+                         fc.loc(), detail)
+            else:
+                ctx.ok(rule, b.name, detail)
+        else:
+            # trait default: pos() saved, set_pos(saved) after the closure
+            sets = [cs for cs in b.calls() if cs.name == "set_pos" and fc.target is not None and (cs.bb == fc.target or b.dominates(fc.target, cs.bb))]
+            args = [F.rd(R.positional(O.call_args(cs)[1])) for cs in sets]
+            detail.update(restores=args)
+            if not any(a.startswith("ScopedBitRead::pos(") or "pos(" in a for a in args):
+                ctx.fail(rule, b.name, "%s does not restore the position it saved before the closure (set_pos arguments after it: %s)"
+                         % (b.name, args), fc.loc(), detail)
+            else:
+                ctx.ok(rule, b.name, detail)
+    ctx.floor(rule, n, "C11.R7.helpers")
+
+
+EXPECTED_READ = {
+    "read_bits": "(slice::len($2) Mul 8)",
+    "read_bits_with_offset": "((slice::len($2) Mul 8) Sub $3)",
+    "read_bits_with_len": "$3",
+    "read_bits_with_offset_len": "$4",
+}
+
+
+def r8(ctx):
+    rule = "C11.R8"
+    ctx.rule(rule, "check what is read: every length-scoped BitRead method of BitBuffer and Bits asks ensure_can_read_bits for exactly "
+                   "the number of bits the raw slice reader it delegates to will consume (dst.len() * 8, that minus the offset, or the "
+                   "length argument) - the twin of C11.R4 on the read side")
+    P = ctx.program()
+    n = 0
+    for ty in ("BitBuffer", "Bits"):
+        for m, want in EXPECTED_READ.items():
+            cands = [b for b in P.lib_bodies("asn1rs") if b.name == m and (b.impl_trait or "").endswith("BitRead")
+                     and (b.impl_self_ty or "").split("<")[0].endswith(ty) and b.def_kind == "AssocFn" and "::promoted[" not in b.path]
+            if len(cands) != 1:
+                ctx.fail(rule, "anchor-lost:%s::%s" % (ty, m), "impl BitRead for %s has no unique method %s" % (ty, m))
+                continue
+            b = cands[0]
+            O = X.Origins(b, P)
+            ens = [cs for cs in b.calls() if cs.name == "ensure_can_read_bits"]
+            n += 1
+            got = [F.rd(R.positional(O.call_args(c)[1])) for c in ens]
+            detail = {"function": b.path, "expected": want, "ensure_args": got}
+            if not ens:
+                ctx.ok(rule, "%s::%s" % (ty, m), dict(detail, note="no ensure_can_read_bits call: C04.R2 decides whether the visible end is tested"),
+                       nontrivial=False)
+            elif want not in got:
+                ctx.fail(rule, "%s::%s" % (ty, m), "asks whether `%s` bits can be read, but the delegate reads `%s`: reads beyond the visible "
+                                                   "end succeed or legitimate reads are refused" % (got[0], want), ens[0].loc(), detail)
+            else:
+                ctx.ok(rule, "%s::%s" % (ty, m), detail)
+    ctx.floor(rule, n, "C11.R8.methods")
+
+
 def run(ctx):
     r1(ctx)
     r2(ctx)
@@ -365,3 +451,5 @@ def run(ctx):
     r4(ctx)
     r5(ctx)
     r6(ctx)
+    r7(ctx)
+    r8(ctx)
